@@ -47,6 +47,12 @@ def check(ctx):
         detail = show(v)
     ctx.ob("GetBlockSubsidy/shift-branch", "VALUE-GRAPH", "otherwise it returns (50 * COIN) >> (nHeight / nSubsidyHalvingInterval) with 50*COIN == 5,000,000,000",
            ok1, f.where, detail)
+    # no narrowing on the value path: the quotient, the shifted amount and the result keep at least int / CAmount width
+    WIDE = {"int", "const int", "long", "const long", "int64_t", "const int64_t", "CAmount", "const CAmount", "unsigned int", "const unsigned int", "uint64_t", "const uint64_t", "long long"}
+    narrow = [(st.get("n"), st.get("ty")) for st in stmts(f.body) if st.get("k") == "decl" and st.get("ty") not in WIDE]
+    ctx.ob("GetBlockSubsidy/no-narrowing", "VALUE-GRAPH", "the halving count and the subsidy amount are held in int / CAmount-wide variables (a narrower type would wrap the "
+           "halving count before the >= 64 test) and the function returns CAmount", not narrow and f.d.get("ret") in ("CAmount", "int64_t", "long"), f.where,
+           {"narrow_locals": narrow, "return_type": f.d.get("ret")})
     ctx.ob("const/COIN", "CONST", "COIN == 100,000,000 and MAX_MONEY == 21,000,000 * COIN", P.const("COIN") == 100000000 and P.const("MAX_MONEY") == 21000000 * 100000000, None)
     # consequences of the shape (discharged by the shape obligations + language semantics)
     ctx.ob("schedule/zero-after-64", "PROOF", "subsidy(h) == 0 for all h >= 64 * I  [from the zero branch]", ok_shape and ok0, f.where)
